@@ -27,7 +27,10 @@ func (h *History) Load(filename string) {
 		return
 	}
 	r := NewLineReader(f, 4096)
-	var line []byte
+	var (
+		line []byte
+		size int64 // bytes up to and including the last newline
+	)
 	for {
 		if line, err = r.ReadLine(); err != nil {
 			if errors.Is(err, io.EOF) {
@@ -35,6 +38,7 @@ func (h *History) Load(filename string) {
 			}
 			panic(err)
 		}
+		size += int64(len(line)) + 1
 		line = bytes.TrimSpace(line)
 		if 0 < len(line) {
 			var form Form
@@ -42,6 +46,17 @@ func (h *History) Load(filename string) {
 				form = append(form, []rune(string(sub)))
 			}
 			h.forms = append(h.forms, form)
+		}
+	}
+	if 0 < len(line) {
+		// The file does not end with a newline. The process died while the
+		// last entry was being written (a write larger than a page can be
+		// cut short). The partial entry is not loaded so it is removed from
+		// the file as well, otherwise the next entry added would be appended
+		// to it.
+		if wf, err := os.OpenFile(filename, os.O_WRONLY, 0644); err == nil {
+			_ = wf.Truncate(size)
+			_ = wf.Close()
 		}
 	}
 }
